@@ -125,7 +125,20 @@ func files() (map[string]*pbfgen.File, []string) {
 		{Groups: []pbfgen.Group{{Ways: []pbfgen.Way{way(10, 0, 3, false, false), way(11, 2, 0, false, false), way(12, 0, 1, true, false), way(13, 1, 4, false, false)}}}},
 		{Groups: []pbfgen.Group{{Relations: []pbfgen.Relation{rel(20, 0, 2, false), rel(21, 2, 0, false), rel(22, 0, 0, false), rel(23, 1, 1, false)}}}},
 	}}
-	return map[string]*pbfgen.File{"X-three-blocks": x, "Y-one-block-mixed": y, "Z-no-metadata": z}, []string{"X-three-blocks", "Y-one-block-mixed", "Z-no-metadata"}
+	// the three-block file again with 200 unused string-table entries first: every
+	// string id in keys_vals, keys, vals, roles and user_sid needs a 2-byte varint
+	// (the dense-node tag pre-count works on raw bytes)
+	wf := &pbfgen.File{Header: pbfgen.StdHeader()}
+	extra := make([]string, 200)
+	for i := range extra {
+		extra[i] = fmt.Sprintf("unused%d", i)
+	}
+	for _, b := range x.Blocks {
+		b.ExtraStrings = extra
+		wf.Blocks = append(wf.Blocks, b)
+	}
+	return map[string]*pbfgen.File{"X-three-blocks": x, "Y-one-block-mixed": y, "Z-no-metadata": z, "W-large-string-table": wf},
+		[]string{"X-three-blocks", "Y-one-block-mixed", "Z-no-metadata", "W-large-string-table"}
 }
 
 func want(f *pbfgen.File, c fcase) []osm.Object {
@@ -207,6 +220,9 @@ func main() {
 						for b := 0; b < np; b++ {
 							for c := 0; c < np; c++ {
 								for _, p := range procs {
+									if n == "W-large-string-table" && p != 1 {
+										continue // about varint widths, not about decoder counts
+									}
 									cases = append(cases, fcase{FileName: n, Flags: flags, Preds: [3]int{a, b, c}, Procs: p})
 								}
 							}
